@@ -27,6 +27,8 @@ EXPLANATION_ADDED3 = (' (R8) the constructor stores int(limit) for each of the f
 EXPLANATION += EXPLANATION_ADDED3
 EXPLANATION_ADDED2 = (' (R9) a box is a value: no method of RegionBoundingBox writes through the box it is called on or through its arguments (C13.R1 restricted to the bounding-box module), so no result depends on the methods called before.')
 EXPLANATION += EXPLANATION_ADDED2
+EXPLANATION_ADDED4 = (' (R8 also) the image shape of get_overlap_slices enters the slice arithmetic only as int(<element>) (decided by evaluating the method on a shape of two opaque numbers).')
+EXPLANATION += EXPLANATION_ADDED4
 TRUSTED = ['builtin min/max/abs on integers', 'slice(a, b) selects a <= i < b for 0 <= a']
 ASSUMPTIONS = ['corners are exact integers']
 
@@ -382,6 +384,35 @@ def c_last(c):
     return c
 
 
+def shape_clause(ctx):
+    """the image shape of get_overlap_slices is the other operand of the slice arithmetic (`shape[0] - iymin`): its elements
+    too must be converted to Python integers (np.array(shape, dtype=np.uint8) is a legal way to hand a shape over) — decided
+    on the value: with two opaque numbers as shape, they occur in the result and in the no-overlap test only as int(<element>)"""
+    ci = ctx.model.cls('RegionBoundingBox')
+    gos = method_or_fail(ctx, ci, 'get_overlap_slices')
+    ev2 = evaluator(ctx)
+    box = _box(ctx, 'self')
+    T0, T1 = sp.Symbol('shape0', real=True), sp.Symbol('shape1', real=True)
+    out = ev2.run(gos, [box, Tup((T0, T1))], {})
+    ctx.need(out.returns, 'RegionBoundingBox.get_overlap_slices', 'no return reached with a symbolic shape')
+    from ..vg import walk_terms
+    U = {sp.Function('int')(T0): sp.Symbol('U0', integer=True), sp.Function('int')(T1): sp.Symbol('U1', integer=True)}
+    rawuse = None
+    for pc, v in out.returns:
+        for t in list(pc) + [v]:
+            for sub in walk_terms(t):
+                if is_num(sub) and (sub.subs(U).free_symbols & {T0, T1}):
+                    rawuse = rawuse or sub
+    if rawuse is not None:
+        ctx.bad('RegionBoundingBox.get_overlap_slices', 'fixed-width-shape',
+                f'the image shape enters the slice arithmetic as given ({show(rawuse, 80)}): with a shape of numpy integer scalars '
+                '`shape[0] - iymin` runs in their fixed width — an OverflowError for an unsigned shape and a negative limit, a '
+                'wrapped-around slice(125, -126) for int8 — instead of the overlap or (None, None); convert the elements to '
+                'Python integers first', gos.loc())
+    else:
+        ctx.ok('RegionBoundingBox.get_overlap_slices', 'the image shape is converted to Python integers before the slice arithmetic')
+
+
 def r8(ctx):
     """fixed-width integers: the limits keep the integer type they were given (np.int8 ... np.int32 limits are legal), so
     the box arithmetic must not multiply two limit-derived values (an area `nx * ny` wraps around silently) — the
@@ -417,6 +448,7 @@ def r8(ctx):
                 'converted to Python integers (int(...)) when they are stored', init.loc())
         return
     ctx.ok('RegionBoundingBox.__init__', 'the four limits are stored as Python integers (int(...)): the arithmetic cannot wrap')
+    shape_clause(ctx)
     # (b) with Python-int limits no method can overflow; the dataflow below stays as a guard for limits that reach a method
     # by another way (it treats the stored limits as exact)
     lint = _DtypeLint(ctx, m, coord_attrs=())
